@@ -483,7 +483,17 @@ func (c *connection) connectLoop(prev *epoch, gen uint64, cancel *chan struct{},
 // actual safety net, not the option validation alone.
 func nextBackoffDelay(cur time.Duration, multiplier float64, ceil time.Duration) time.Duration {
 	next := time.Duration(float64(cur) * multiplier)
-	if next <= 0 || next > ceil {
+	if next <= 0 {
+		return ceil
+	}
+
+	// float64 has 53 significant bits: above 2^53 ns (~104 days) float64(cur) may round DOWN, so
+	// the product can come out below cur even for multiplier >= 1. Never let the backoff shrink.
+	if next < cur {
+		next = cur
+	}
+
+	if next > ceil {
 		return ceil
 	}
 
